@@ -1,5 +1,5 @@
 CONSTANTS JCs = {1} Horizon = 6 Ids = {0,1,2} Windows <- W1 MaxMissed = 2 MaxDown = 3 MaxOps = 2 MaxLag = 2 MaxFaults = 1 MaxRestarts = 1 MaxTick = 3
-  Pols = {"Allow"} PreBoot = TRUE WithRecon = FALSE Workers = {1} Relists = FALSE
+  Pols = {"Allow"} PreBoot = TRUE WithRecon = FALSE Workers = {1} Relists = TRUE
 SPECIFICATION Spec
 INVARIANTS TypeOK C02_AtMostOne C02_Requested C20_Served
 PROPERTIES C01_C03_C04_Pass C04_BootHeap
